@@ -165,7 +165,7 @@ int main(int argc, char** argv) {
 		vf::Result R; Alphabet A; A.vm_flags = fsets[shard]; A.keys = { KEY }; A.inputs = { INPUT }; A.with_batch = false; A.with_version = false; A.cache_jit_variants = true;
 		explore_init(); W.A = &A; compute_expected(W); OPS = W.alphabet_ops(); state_check = lifecycle_check; dedup = true;
 		env::State& E = env::S(); E.reuse_small = 1; E.reuse_large = 1; g_b0 = E.live_blocks; g_m0 = E.live_map_bytes; g_by0 = E.live_bytes;
-		visit(W.digest(), depth); explore(depth);
+		for (int d = 1; d <= depth; ++d) { memset(SH, 0, sizeof(Shared) + TAB * sizeof(Shared::E)); visit(W.digest(), d); explore(d); if (SH->nviol) break; }   // iterative deepening: shortest counterexample first
 		std::string cfg; for (auto& fs : rxh::vm_flagsets()) if (fs.flags == A.vm_flags) cfg = fs.name;
 		R.n["states"] = SH->states; R.n["transitions"] = SH->transitions; R.n["hashes_checked"] = SH->hashes; R.n["explorations"] = 1; R.mx["history_length"] = SH->max_depth_reached;
 		R.tags.insert("lifecycle " + cfg + ": " + std::to_string(SH->states) + " states");
